@@ -218,9 +218,16 @@ func (w *world) checkCrashImage(seq *Seq, k, opIdx int, img db.KeyValueStore, wi
 		c.Violation("model-mismatch:crash-image", what+"decoded image differs from the model's\n   impl : "+enc+"\n   model: "+mp[0], cs, true)
 		return
 	}
+	if mflags[4] == "1" {
+		c.Hist["crash-image-of-snapshot-fresh-history(C05_index applies)"]++
+		if !evOK || mflags[2] != "1" {
+			c.Violation("theorem:index-covers-fails-for-fresh-history", what+"ops_fresh holds but the event index has false negatives: "+evWhat, cs, false)
+		}
+	}
+	if mflags[3] == "1" && (mflags[0] != "1" || mflags[5] != "1" || mflags[1] != "1") {
+		c.Violation("theorem:crash-image-not-consistent-in-model", what+"ops_env holds but the model's crash image is not consistent/continuous/ready", cs, true)
+	}
 	if mflags[3] != "1" {
-		// the generator respects the environmental clauses of ops_ok, so this can only be the mem_sync clause:
-		// a revert of a window's last block with the in-memory filter not in sync (e.g. after a restart)
 		c.Violation("hypothesis:ops-env-false", what+"the generator produced a history outside ops_env (revert onto a pruned block / prune of the head)", cs, true)
 	}
 	if (mflags[1] == "1") != (nsErr == nil) {
